@@ -10,7 +10,10 @@
 (*   rq, rx    - their query / transaction counters                          *)
 (* Dev: "abnormal_exit_keeps_row" (a task that ends by panic never           *)
 (*      unregisters), "copy_counts_twice" (COPY FROM STDIN reports the        *)
-(*      transaction at CopyInResponse and at CopyDone).                       *)
+(*      transaction at CopyInResponse and at CopyDone),                      *)
+(*      "refused_request_leaves_waiting" (a request that is refused before   *)
+(*      any server is involved - no such shard, no connection within the      *)
+(*      timeout - leaves the client shown as waiting).                        *)
 (***************************************************************************)
 EXTENDS Integers, FiniteSets, TLC
 
@@ -41,6 +44,13 @@ Request(c, kind) ==
           /\ rx' = [rx EXCEPT ![c] = @ + (IF kind = "copy" /\ "copy_counts_twice" \in Dev THEN 2 ELSE 1)]
   /\ UNCHANGED <<conn, reg>>
 
+\* a request outside a transaction that the pooler refuses before a server is involved: the client is idle again,
+\* nothing was executed, nothing is counted
+Refused(c) ==
+  /\ Op /\ c \in conn /\ state[c] = "idle"
+  /\ rstate' = [rstate EXCEPT ![c] = IF "refused_request_leaves_waiting" \in Dev THEN "waiting" ELSE "idle"]
+  /\ UNCHANGED <<conn, state, q, x, reg, rq, rx>>
+
 \* the client leaves: how = "clean" (Terminate / EOF) or "abnormal" (its task ends by panic or an early error)
 Leave(c, how) ==
   /\ Op /\ c \in conn /\ how \in {"clean", "abnormal"}
@@ -50,7 +60,7 @@ Leave(c, how) ==
   /\ UNCHANGED <<q, x, rq, rx>>
 
 Next == \E c \in Clients : Connect(c) \/ FailedLogin(c) \/ (\E k \in {"stmt", "last", "copy"} : Request(c, k))
-                            \/ (\E h \in {"clean", "abnormal"} : Leave(c, h))
+                            \/ (\E h \in {"clean", "abnormal"} : Leave(c, h)) \/ Refused(c)
 Spec == Init /\ [][Next]_vars
 
 \* C18 at quiescent points (every state of this model is one)
